@@ -46,15 +46,15 @@ def run_streams(ctx, kinds, exh_narrow, exh_wide, sim_num, sim_depth, rich, n_ra
     with cf.ThreadPoolExecutor(max_workers=6) as ex:
         fb = ex.submit(build_harness, ["streams"], features, tag)
         if narrow:
-            jobs.append(ex.submit(run_tlc, ctx, "Streams", stream_cfg(narrow, exh_narrow, rich, dimcheck, laws), "exh_narrow", 4))
+            jobs.append(ex.submit(run_tlc, ctx, "Streams", stream_cfg(narrow, exh_narrow, rich, dimcheck, laws), "exh_narrow", 4, None, None, 3000))
         if wide:
-            jobs.append(ex.submit(run_tlc, ctx, "Streams", stream_cfg(wide, exh_wide, rich, dimcheck, laws), "exh_wide", 4))
+            jobs.append(ex.submit(run_tlc, ctx, "Streams", stream_cfg(wide, exh_wide, rich, dimcheck, laws), "exh_wide", 4, None, None, 3000))
         if unitgrid_len:
             ug = [k for k in kinds if k in ("Integral", "Derivative", "AccToState", "VelToState", "PosToState")]
             jobs.append(ex.submit(run_tlc, ctx, "Streams", stream_cfg(ug, unitgrid_len, False, dimcheck, laws, unitgrid=True), "unitgrid", 4))
         if sim_num:
             jobs.append(ex.submit(run_tlc, ctx, "Streams", stream_cfg(kinds, sim_depth, rich, dimcheck, laws, sim=True), "sim", 2,
-                                  sim_num, sim_depth + 2))
+                                  sim_num, sim_depth + 2, 3000))
         results = [tlc_ok(j.result()) for j in jobs]
         bindir = fb.result()
     allb = vlib.concat([r["behaviours"] for r in results], os.path.join(ctx.out, "behaviours.ndjson"))
@@ -64,7 +64,7 @@ def run_streams(ctx, kinds, exh_narrow, exh_wide, sim_num, sim_depth, rich, n_ra
     concs = concs_for(ctx, n_random_concs)
     cpath = os.path.join(ctx.out, "concs.json")
     json.dump(concs, open(cpath, "w"))
-    mism, summary, _ = run_bin(bindir, "streams", ["replay", allb, cpath] + (["--structure"] if structure_only else []), timeout=1500)
+    mism, summary, _ = run_bin(bindir, "streams", ["replay", allb, cpath] + (["--structure"] if structure_only else []), timeout=3000)
     ctx.evaluations += summary.get("replays", 0)
     ctx.traces += summary.get("behaviours", 0)
     ctx.extra.setdefault("replay_summaries", []).append(summary)
@@ -124,7 +124,7 @@ def replay_streams_trace(pid, v):
 def tier_params(ctx):
     if ctx.tier == "quick":
         return dict(exh_narrow=4, exh_wide=3, sim_num=400, sim_depth=12, rich=False, n_random_concs=1)
-    return dict(exh_narrow=5, exh_wide=4, sim_num=3000, sim_depth=48, rich=True, n_random_concs=4)
+    return dict(exh_narrow=5, exh_wide=4, sim_num=500, sim_depth=48, rich=False, n_random_concs=3)
 
 
 def finish_streams(ctx, summary, total, what):
@@ -145,7 +145,7 @@ def finish_streams(ctx, summary, total, what):
 @register("C04")
 def c04(ctx):
     p = (dict(exh_narrow=5, exh_wide=0, sim_num=400, sim_depth=24, rich=False, n_random_concs=2) if ctx.tier == "quick" else
-         dict(exh_narrow=4, exh_wide=0, sim_num=4000, sim_depth=64, rich=True, n_random_concs=6))
+         dict(exh_narrow=4, exh_wide=0, sim_num=500, sim_depth=64, rich=True, n_random_concs=6))
     mism, summary, total = run_streams(ctx, ["PID"], **p)
     stream_traces(ctx, ["PID"], 300 if ctx.tier == "quick" else 5000)
     finish_streams(ctx, summary, total,
@@ -160,7 +160,7 @@ def c04(ctx):
 def c10(ctx):
     kinds = ["Integral", "Derivative", "AccToState", "VelToState", "PosToState"]
     p = (dict(exh_narrow=4, exh_wide=0, sim_num=400, sim_depth=16, rich=False, n_random_concs=2, unitgrid_len=2) if ctx.tier == "quick" else
-         dict(exh_narrow=4, exh_wide=0, sim_num=4000, sim_depth=64, rich=True, n_random_concs=6, unitgrid_len=3))
+         dict(exh_narrow=4, exh_wide=0, sim_num=500, sim_depth=64, rich=True, n_random_concs=6, unitgrid_len=3))
     mism, summary, total = run_streams(ctx, kinds, **p)
     stream_traces(ctx, kinds, 400 if ctx.tier == "quick" else 6000)
     finish_streams(ctx, summary, total,
@@ -173,7 +173,7 @@ def c10(ctx):
 @register("C11")
 def c11(ctx):
     p = (dict(exh_narrow=0, exh_wide=4, sim_num=600, sim_depth=14, rich=False, n_random_concs=2) if ctx.tier == "quick" else
-         dict(exh_narrow=0, exh_wide=5, sim_num=5000, sim_depth=48, rich=False, n_random_concs=5))
+         dict(exh_narrow=0, exh_wide=5, sim_num=500, sim_depth=48, rich=False, n_random_concs=4))
     mism, summary, total = run_streams(ctx, ["CmdPID", "CmdPIDF"], **p)
     stream_traces(ctx, ["CmdPID"], 300 if ctx.tier == "quick" else 5000)
     finish_streams(ctx, summary, total,
@@ -187,7 +187,7 @@ def c11(ctx):
 def c12(ctx):
     kinds = ["EWMA", "EWMAQ", "MA", "MAQ"]
     p = (dict(exh_narrow=0, exh_wide=4, sim_num=600, sim_depth=16, rich=False, n_random_concs=2) if ctx.tier == "quick" else
-         dict(exh_narrow=0, exh_wide=4, sim_num=5000, sim_depth=64, rich=True, n_random_concs=5))
+         dict(exh_narrow=0, exh_wide=4, sim_num=500, sim_depth=64, rich=True, n_random_concs=4))
     mism, summary, total = run_streams(ctx, kinds, **p)
     stream_traces(ctx, kinds, 400 if ctx.tier == "quick" else 6000)
     finish_streams(ctx, summary, total,
